@@ -24,6 +24,11 @@ TIMES = 'history/times.py'; HFILES = 'history/files.py'; TNETS = 'server/tnetstr
 POLL = 'server/enip/poll.py'; DEFAULTS = 'server/enip/defaults.py'; NETWORK = 'server/network.py'
 
 VARIANTS = [
+    V( 'delegate-underscore-names-refused', DOT, "def __getattr__( self, key ):\n try:", "def __getattr__( self, key ):\n        if key.startswith( '_' ):\n            raise AttributeError( key )\n        try:", fires=[ 'D-DELEGATE' ] ),
+    V( 'delegate-pop-default-as-one-argument', DOT, "return target.pop( rest, *args[1:] )", "return target.pop( rest, args )", fires=[ 'D-DELEGATE' ] ),
+    V( 'route-closed-connection-keeps-engine', CLIENT, "self.engine = None # A closed connection has no response frame in progress", "pass", fires=[ 'P-ROUTE' ] ),
+    V( 'one-process-called-with-cut-frame', MAIN, "''.join( traceback.format_exception( *sys.exc_info() )))\n raise\n finally:", "''.join( traceback.format_exception( *sys.exc_info() )))\n            enip_process( addr, data=data )\n            raise\n        finally:", fires=[ 'P-ONE' ] ),
+    V( 'one-process-told-session-over', MAIN, "''.join( traceback.format_exception( *sys.exc_info() )))\n raise\n finally:", "''.join( traceback.format_exception( *sys.exc_info() )))\n            enip_process( addr, data=dotdict() )\n            raise\n        finally:", silent=[ 'P-ONE' ] ),
     V( 'direction-api-from-the-other-side', DEVICE, "fo.T_O.API = fo.T_O.RPI", "fo.T_O.API		= fo.O_T.RPI", fires=[ 'K-DIRECTION' ] ),
     V( 'offsets-member-padded-to-a-word', DEVICE, "req = cls.produce( r )\n offsets = [ 0 ] + [ o + len( req ) for o in offsets ]", "req		= cls.produce( r )\n                req	       += b'\\x00' * ( len( req ) % 2 )\n                offsets		= [ 0 ] + [ o + len( req ) for o in offsets ]", fires=[ 'A-OFFSETS' ] ),
     V( 'methods-write-without-data-size-hint', CLIENT, "send_path=None, timeout=None, send=True,\n data_size=None, # for response data_size estimation (as for the other services)\n sender_context=b'', **kwds ):\n req = dotdict()\n seg,elm,cnt = device.parse_path_elements( path )\n if cnt is not None:\n elements = cnt\n req.path = { 'segment': [ dotdict( s ) for s in seg ]}\n if tag_type is None:", "send_path=None, timeout=None, send=True,\n               sender_context=b'', **kwds ):\n        req			= dotdict()\n        seg,elm,cnt		= device.parse_path_elements( path )\n        if cnt is not None:\n            elements		= cnt\n        req.path		= { 'segment': [ dotdict( s ) for s in seg ]}\n        if tag_type is None:", fires=[ 'T-METHODS' ] ),
